@@ -13,4 +13,5 @@ def main : IO UInt32 :=
     | "c01patient" => C01.check params lines
     | "c05d" => C04.checkEng params lines
     | "c05trk" => C05Trk.check params lines
+    | "c05gone" => C04.checkEng params lines
     | _ => { bad := [s!"unknown family {family}"] })
